@@ -38,6 +38,16 @@ EDITS = [
  ('progress-raise', 'C06', 'states.py',
   "            # final states are final: silently discard the invalid target\n            return [current, []]",
   "            raise ValueError('invalid transition')", 'no-ValueError'),
+ ('fwd-flag-not-cleared', 'C16', 'session.py',
+  "                msg['fwd'] = False\n", "                pass\n", 'pubsub_fwd'),
+ ('fwd-inbound-own', 'C16', 'session.py',
+  "                if msg['origin'] == self._module:\n                    if LOG_ENABLED:",
+  "                if msg['origin'] != msg['origin']:\n                    if LOG_ENABLED:",
+  'pubsub_fwd'),
+ ('fwd-wiring', 'C16', 'session.py',
+  "        self.crosswire_pubsub(src=rpc.PROXY_STATE_PUBSUB,\n                              tgt=rpc.STATE_PUBSUB,\n                              from_proxy=True)",
+  "        self.crosswire_pubsub(src=rpc.PROXY_STATE_PUBSUB,\n                              tgt=rpc.STATE_PUBSUB,\n                              from_proxy=False)",
+  'C16.wiring'),
 ]
 
 
